@@ -48,7 +48,7 @@ RULE = ("(A) cases = Python values for freeze_value (all values of nesting depth
         "≥1 transition; distinct = distinct encoded values / (class, definition, operation) tuples")
 ASSUMPTIONS = [
     "part (B) is MONITORED at level 'other': absence of operand mutation and of harmful aliasing is observed on sampled histories, not proved",
-    "freeze_value is meant for values whose tuples / frozensets / keys hold only immutable members (`supported`); a list inside a tuple is not looked at by the code and is outside the property's domain (documented in notes/C18.md)",
+    "freeze_value theorems assume `supported`: every dict key and every set/frozenset element is hashable (on the model: contains no dict/set/list). This excludes nothing that exists: Python raises TypeError (unhashable type) when such a dict/set/frozenset is built. Lists inside tuples ARE covered (fix 3900daf)",
     "frozendict is the pure-Python implementation (a subclass of dict), as installed here",
     "objects other than str/int/dict/set/list/tuple/frozenset/frozendict are atoms assumed immutable (None, float, …)",
     "pickle's byte encoding is CPython's and trusted; the model covers __getstate__/__setstate__",
@@ -75,13 +75,29 @@ def is_frozen_py(v) -> bool:
 
 
 def supported_py(v) -> bool:
+    """The model's `supported`: every dict key and every set / frozenset element is hashable
+    (= immutable through and through); lists, tuples and dict values may hold anything.  Python
+    cannot build a value that fails this (TypeError: unhashable type), so on real inputs it is
+    always True — the flag is compared with the model's all the same."""
     if isinstance(v, (dict, frozendict)):
         return all(is_frozen_py(k) and supported_py(x) for k, x in v.items())
-    if isinstance(v, list):
+    if isinstance(v, (list, tuple)):
         return all(supported_py(x) for x in v)
-    if isinstance(v, (set, frozenset, tuple)):
+    if isinstance(v, (set, frozenset)):
         return all(is_frozen_py(x) for x in v)
     return True
+
+
+def has_list_in_tuple(v, in_tuple: bool = False) -> bool:
+    """Does a mutable container sit (directly) inside a tuple somewhere?  (the shapes
+    freeze_value did not reach before /repo fix 3900daf)"""
+    if isinstance(v, (dict, frozendict)):
+        return (in_tuple and not isinstance(v, frozendict)) or any(has_list_in_tuple(x) for x in v.values())
+    if isinstance(v, (list, set)):
+        return in_tuple or any(has_list_in_tuple(x) for x in v)
+    if isinstance(v, tuple):
+        return any(has_list_in_tuple(x, True) for x in v)
+    return False
 
 
 def depth_has_nested_mutable(v) -> bool:
@@ -114,6 +130,8 @@ def check_freeze(ctx: Ctx, v, origin: str):
     ctx.case(("freeze", enc) if depth_has_nested_mutable(v) else None)
     ctx.stat(f"freeze:{origin}")
     ctx.stat("freeze:supported" if supported_py(v) else "freeze:unsupported")
+    if has_list_in_tuple(v):
+        ctx.stat("freeze:mutable_inside_tuple")
     if ctx.evaluations % 2003 == 11:
         ctx.sample(dict(value=repr(v)[:200], frozen=repr(real)[:200], model=fz[:200]))
     bad = []
@@ -261,6 +279,8 @@ def check_object_model(ctx: Ctx, cls: str, kw, origin: str, m0: bool, m1: bool, 
     model_new = parse_inst(ctx.driver(DRV).ask(f"NEW {int(m0)} " + enc))
     ctx.case(("new", cls, enc, m0, m1) if C19_nontrivial(kw) else None)
     ctx.stat(f"object:{origin}:{cls}")
+    if has_list_in_tuple(kw.get("transitions")):
+        ctx.stat(f"object:list_inside_tuple:{cls}")
     if impl_new != model_new:
         ctx.corr_diff("NEW", dict(cls=cls, kwargs=repr(kw), m0=m0), impl_new, model_new)
     if obj is None:
@@ -294,6 +314,91 @@ def check_object_model(ctx: Ctx, cls: str, kw, origin: str, m0: bool, m1: bool, 
 def C19_nontrivial(kw) -> bool:
     return "states" in kw and "transitions" in kw and len(kw["states"]) >= 2 and any(
         len(r) > 0 for r in kw["transitions"].values())
+
+
+# ------------------------------------------------------------------ "tuple holding list" definitions
+TL_CLASSES = ("MNTM", "NTM", "DPDA", "NPDA")
+
+
+def tuple_list_def(rng, cls: str) -> Dict[str, Any]:
+    """A valid definition of an MNTM / NTM / DPDA / NPDA in which a *tuple holds a list*: the
+    shapes freeze_value did not reach before /repo fix 3900daf (it returned tuples as they were).
+      MNTM  result (state, [[sym, dir], …]) / (state, [(sym, dir), …]) / (state, ([sym, dir], …)),
+            the results of a key in a list or in a tuple          (reviewer: [('q1', [['1','R']])])
+      NTM   the results of a symbol as a tuple of lists ([state, sym, dir], …) instead of a set of tuples
+      DPDA  result (state, [pushed symbols])                      (reviewer: ('q1', ['1','0']))
+      NPDA  the results of a stack symbol as a tuple of (state, [pushed symbols])
+    All are accepted by validate() and run like their all-tuple counterparts in the default
+    configuration."""
+    kw: Dict[str, Any] = {}
+    for _ in range(30):
+        kw = G.rand_def(rng, cls)
+        n = 0
+        for q, row in kw["transitions"].items():
+            for key in list(row.keys()):
+                v = row[key]
+                if cls == "MNTM":
+                    res = []
+                    for (t, moves) in v:
+                        shape = rng.randrange(3)
+                        if shape == 0:
+                            mv: Any = [list(m) for m in moves]
+                        elif shape == 1:
+                            mv = [tuple(m) for m in moves]
+                        else:
+                            mv = tuple(list(m) for m in moves)
+                        res.append((t, mv))
+                        n += 1
+                    row[key] = tuple(res) if rng.random() < 0.5 else res
+                elif cls == "NTM":
+                    row[key] = tuple(list(r) for r in sorted(v, key=repr))
+                    n += len(v)
+                elif cls == "DPDA":
+                    for g, (t, p) in list(v.items()):
+                        v[g] = (t, list(p))
+                        n += 1
+                else:
+                    for g, rs in list(v.items()):
+                        v[g] = tuple((t, list(p)) for (t, p) in sorted(rs, key=repr))
+                        n += len(rs)
+        if n and len(kw["states"]) >= 2:
+            return kw
+    return kw
+
+
+def containers_deep(x, out: list) -> list:
+    """Every dict / set / list object reachable inside x — also through tuples, frozensets and
+    frozendict values."""
+    if isinstance(x, (dict, frozendict)):
+        if not isinstance(x, frozendict):
+            out.append(x)
+        for v in list(x.values()):
+            containers_deep(v, out)
+    elif isinstance(x, (list, set)):
+        out.append(x)
+        for v in list(x):
+            containers_deep(v, out)
+    elif isinstance(x, (tuple, frozenset)):
+        for v in x:
+            containers_deep(v, out)
+    return out
+
+
+def mutate_containers(rng, cs: list):
+    """Change every collected container in place (reviewer's `moves[0][1] = 'L'` included: the
+    last atom of a list is overwritten)."""
+    for c in cs:
+        if isinstance(c, list):
+            if c and isinstance(c[-1], (str, int)):
+                c[-1] = "L" if c[-1] != "L" else "R"
+            else:
+                c.append("%")
+            if rng.random() < 0.3:
+                c.append("%")
+        elif isinstance(c, set):
+            c.add(("#added", 2))
+        else:
+            c[("#added", 2)] = None
 
 
 # ------------------------------------------------------------------ (B) default mode probes
@@ -349,6 +454,8 @@ def probe_default(ctx: Ctx, cls: str, kw, rng, origin: str):
     rp = dict(kind="default_probe", cls=cls, kwargs=repr(kw))
     ctx.case(("probe", cls, E.enc_def(cls, kw)) if C19_nontrivial(kw) and "list_results" not in origin else None)
     ctx.stat(f"monitored(other):probe_default:{cls}")
+    if has_list_in_tuple(kw.get("transitions")):
+        ctx.stat(f"monitored(other):probe_default:list_inside_tuple:{cls}")
     snap = G.snapshot(obj.input_parameters)
     # nested containers immutable (public parameters and __dict__ extras such as GNFA.final_states)
     mc = []
@@ -359,10 +466,18 @@ def probe_default(ctx: Ctx, cls: str, kw, rng, origin: str):
             mc += Mon.mutable_containers(v, "__dict__." + k)
     if mc:
         ctx.prop_fail(f"{cls}: a mutable container is stored in the default configuration at {mc[:3]}", rp, None)
-    # later mutation of the arguments
+    # later mutation of the arguments: the class-shaped edits, then every mutable container
+    # reachable in the arguments (through tuples too), each changed in place
+    cs = containers_deep(args, [])
     mutate_args(rng, args)
     if G.snapshot(obj.input_parameters) != snap:
         ctx.prop_fail(f"{cls}: mutating the constructor arguments afterwards changed the automaton", rp, None)
+    else:
+        mutate_containers(rng, cs)
+        if G.snapshot(obj.input_parameters) != snap:
+            ctx.prop_fail(f"{cls}: mutating a container nested in the constructor arguments afterwards changed the "
+                          f"automaton: {Mon.mutable_containers(obj.input_parameters.get('transitions'), 'transitions')[:2]}",
+                          rp, None)
     # attribute protocol
     names = [s for s in type(obj).__slots__] + ["brand_new", "_private", "states"]
     for name in names:
@@ -508,6 +623,13 @@ def run(ctx: Ctx):
         {"q": {"": {"p"}}}, [[[]]], [{1: [{2}]}], {1: {2: [{3}, [4]]}},
         (1, [2], {3}), frozenset({(1, 2)}), frozendict({1: [1, 2], 2: {3}}), True, None, 2.5, "", [],
         {"a": ("x", [1])}, [("x", [1])],
+        # tuples holding lists (entered since /repo fix 3900daf)
+        {"q0": {("1",): [("q1", [["1", "R"]])]}},               # reviewer's MNTM table
+        {"q0": {"a": {"0": ("q1", ["1", "0"])}}},               # DPDA pushing a list
+        {"q0": {"1": (["q1", "1", "R"],)}},                     # NTM results as a tuple of lists
+        {"q0": {"a": {"0": (("q1", ["1", "0"]),)}}},            # NPDA results as a tuple of (state, list)
+        (1, (2, ([3], {4: [5]}, {6}))), ((((([],),),),),), (frozendict({1: [2]}), frozenset({1})),
+        frozendict({1: (2, [3])}),
     ]
     for v in corpus_values:
         check_freeze(ctx, v, "corpus")
@@ -540,6 +662,32 @@ def run(ctx: Ctx):
             elif r < 0.25:
                 check_object_model(ctx, cls, kw, "extra_param", False, False, extra=True)
             probe_default(ctx, cls, kw, rng, "valid" + (":list_results" if lr else ""))
+    # tuple holding list (MNTM / NTM / DPDA / NPDA): frozen since fix 3900daf — the reviewer's
+    # MNTM [('q1', [['1','R']])] and DPDA ('q1', ['1','0']) first, then the generated family
+    fixed_tl = [
+        ("MNTM", dict(states={"q0", "q1"}, input_symbols={"1"}, tape_symbols={"1", "."}, n_tapes=1,
+                      transitions={"q0": {("1",): [("q1", [["1", "R"]])]}}, initial_state="q0", blank_symbol=".",
+                      final_states={"q1"})),
+        ("DPDA", dict(states={"q0", "q1"}, input_symbols={"a"}, stack_symbols={"0", "1"},
+                      transitions={"q0": {"a": {"0": ("q1", ["1", "0"])}}}, initial_state="q0",
+                      initial_stack_symbol="0", final_states={"q1"}, acceptance_mode="final_state")),
+        ("NTM", dict(states={"q0", "q1"}, input_symbols={"1"}, tape_symbols={"1", "."},
+                     transitions={"q0": {"1": (["q1", "1", "R"],)}}, initial_state="q0", blank_symbol=".",
+                     final_states={"q1"})),
+        ("NPDA", dict(states={"q0", "q1"}, input_symbols={"a"}, stack_symbols={"0", "1"},
+                      transitions={"q0": {"a": {"0": (("q1", ["1", "0"]),)}}}, initial_state="q0",
+                      initial_stack_symbol="0", final_states={"q1"}, acceptance_mode="final_state")),
+    ]
+    for cls, kw in fixed_tl:
+        for (m0, m1) in ((False, False), (True, True), (True, False), (False, True)):
+            check_object_model(ctx, cls, kw, "tuple_holding_list", m0, m1)
+        probe_default(ctx, cls, kw, rng, "tuple_holding_list")
+    for _ in range(ctx.budget(40, 400)):
+        for cls in TL_CLASSES:
+            kw = tuple_list_def(rng, cls)
+            for (m0, m1) in ((False, False), (True, False), (False, True)):
+                check_object_model(ctx, cls, kw, "tuple_holding_list", m0, m1)
+            probe_default(ctx, cls, kw, rng, "tuple_holding_list")
     # defaults: allow_partial / acceptance_mode omitted
     for cls, p in (("DFA", "allow_partial"), ("DPDA", "acceptance_mode"), ("NPDA", "acceptance_mode")):
         for _ in range(ctx.budget(5, 50)):
